@@ -929,12 +929,19 @@ def run_C20(ctx):
                                                        EmitOn="TRUE", **{"Allowed(h, c)": "TRUE"}),
                  ("l2numba", "h_builder_numba"), invariants=["SnapshotLength", "UnifyKeepsValues"], properties=["ErrorsLeaveState"],
                  init="BInit", next_="BNext", view="BView", action_constraints=["BEmit"], sample_cases=(40000 if q else 600000))
+    # partitioned and virtual arrays inside compiled code: Partition.tla behaviours (every splitting incl. empty partitions x at /
+    # ranges / length / whole-array sum / repartition), every observation made by Numba-compiled code, on ak.partitioned(...) and on
+    # a VirtualArray of the same data
+    pc = dict(PartN="3", PartMax="3", MaxSteps="2", EmitOn="TRUE", HLOps="{}", RangeSteps="{1}")
+    ctx.l2_phase("numba-partitioned-virtual", "Partition", pc, ("l2numba", "h_partition_numba"), invariants=["LocateInRange", "Tiling"],
+                 init="PInit", next_="PNext", view="PView", action_constraints=["PEmit"], require_actions=["ChooseSplit", "At", "Range"],
+                 sample_cases=(12000 if q else 200000))
     return ctx.finish(rule="case = (layout, access program, run-time indexes); the program is compiled by Numba through /repo's lowering once per "
                            "array form and run on every layout of that form; results boxed back and compared with AkNumba!NbExpect; "
                            "reference counts of the layout before/after 20 calls on every 25th case",
                       assumptions=[L2_TRUSTED, "numba 0.6x: numba.core.cgutils.pointer_add is adapted in the harness (integer base addresses), an "
                                    "environment adaptation recorded in DESIGN.md; nothing in /repo changes",
-                                   "unions, virtual and partitioned arrays inside compiled code are not in this model yet"])
+                                   "unions inside compiled code are not in this model yet; virtual and partitioned arrays are read by len / x[i] / x[a:b] / iteration only"])
 
 
 RUNNERS["C20"] = run_C20
